@@ -50,12 +50,12 @@ impl C14 {
         for i in 0..n {
             let mut rng = Rng::for_case(seed, "c14", i as u64);
             let (prog, infinite) = grammar_program(&mut rng);
-            cases.push(SurfCase { prog, naming: if i % 2 == 0 { Naming::Clash } else { Naming::Distinct }, twin_of: None, infinite, tag: if infinite { "loop-prefix" } else { "finite" } });
+            cases.push(SurfCase { prog, naming: if i % 2 == 0 { Naming::Clash } else { Naming::Distinct }, twin_of: None, infinite, ordered: false, tag: if infinite { "loop-prefix" } else { "finite" } });
         }
         let ncommit = if tier == Tier::Thorough { 1500 } else { 120 };
         for i in 0..ncommit {
             let mut rng = Rng::for_case(seed, "c14-commit", i as u64);
-            cases.push(SurfCase { prog: commit_surface_program(&mut rng), naming: Naming::Clash, twin_of: None, infinite: false, tag: "commit" });
+            cases.push(SurfCase { prog: commit_surface_program(&mut rng), naming: Naming::Clash, twin_of: None, infinite: false, ordered: false, tag: "commit" });
         }
         let nl = if tier == Tier::Thorough { 4000 } else { 400 };
         let mut lterms = vec![];
